@@ -162,12 +162,15 @@ def rand_config(rng, dyadic=None, deep=False, real_calc=True):
         mesh = rng.choice(MESHES_2D if two_d else MESHES_3D)
     niter = rng.choice([1, 2, 3, 4, 5]) if not deep else rng.choice([6, 7])
     if deep:
-        name = rng.choice(rg.SYSTEMS_3D)
+        name = rng.choice(("cubic", "cubic_c4i", "cubic_oh"))
         two_d = False
         div = 1
         mesh = [1, 1, 100]
     cfg = dict(system=name, NKdiv=[div, div, 1] if two_d else [div] * 3, adpt_mesh=mesh, adpt_num_iter=niter,
-               adpt_fac=rng.choice([1, 1, 2, 3, 5]) if not deep else 1, use_irred_kpt=rng.random() < 0.65,
+               adpt_fac=rng.choice([1, 1, 2, 3, 5]) if not deep else 1,
+               # deep: no symmetry reduction (the surviving representative of a merged pair may be the image that lies
+               # far from the spike, which would stop the descent)
+               use_irred_kpt=(rng.random() < 0.65) and not deep,
                symmetrize=rng.random() < 0.5, salt=rng.randint(0, 10 ** 6),
                peak=[rng.choice([0.0, 0.11, 0.3, 0.62]), rng.choice([0.0, 0.2, 0.45]), 0.0 if two_d else rng.choice([0.0, 0.3137])],
                width=rng.choice([0.02, 0.07, 0.3]) if not deep else 0.0004,
@@ -175,6 +178,33 @@ def rand_config(rng, dyadic=None, deep=False, real_calc=True):
                if not deep else ("spike",),
                dyadic=bool(dyadic) and not deep)
     return cfg
+
+
+# Configurations in which refined children coincide with OLD, already evaluated K-points (hexagonal lattice with C3z
+# and an odd refinement mesh; bcc lattice with the cubic group): an evaluated point with non-zero weight gains weight
+# (absorb -> add_factor), with further iterations afterwards.  They always run first, random configurations after.
+MERGE_HEAVY = [
+    dict(system="haldane_c3", NKdiv=[2, 2, 1], adpt_mesh=3, calcs=("peak",), peak=[0.11, 0.2, 0.0], width=0.3),
+    dict(system="haldane_c3", NKdiv=[3, 3, 1], adpt_mesh=3, calcs=("hash", "peak"), peak=[0.3, 0.45, 0.0], width=0.3),
+    dict(system="bcc_oh", NKdiv=[3, 3, 3], adpt_mesh=2, calcs=("hash",), peak=[0.11, 0.2, 0.3137], width=0.3),
+    dict(system="haldane_c3", NKdiv=[3, 3, 1], adpt_mesh=3, calcs=("peak",), peak=[0.3, 0.45, 0.0], width=0.3),
+    dict(system="bcc_oh", NKdiv=[3, 3, 3], adpt_mesh=3, calcs=("peak",), peak=[0.11, 0.2, 0.3137], width=0.3),
+]
+
+
+def merge_heavy(i, niter=4):
+    cfg = dict(adpt_num_iter=niter, adpt_fac=1, use_irred_kpt=True, symmetrize=True, salt=3, dyadic=False)
+    cfg.update(MERGE_HEAVY[i % len(MERGE_HEAVY)])
+    return cfg
+
+
+def weight_events(facs, t):
+    """(number of K-points added in iteration t, did weights of old points move, number of old points with non-zero
+    weight that gained weight, number of zero-weight (dead / stale) old points that were revived)"""
+    a, b = facs[t - 1], facs[t]
+    n = min(len(a), len(b))
+    return (len(b) - len(a), bool(np.any(b[:n] != a[:n])), int(np.sum((b[:n] > a[:n]) & (a[:n] != 0))),
+            int(np.sum((b[:n] > a[:n]) & (a[:n] == 0))))
 
 
 def make_calcs(cfg, save_mode="bin"):
@@ -262,15 +292,34 @@ def corr(ctx):
     lines, checks = [], []
     d = rg.scratch("c10corr")
     N = ctx.n(18, 160)
+    # plan: (configuration, deep?, restart spec or None).  restart = (iterations of the first call, restart_iteration,
+    # iterations of the restarted call): the RESTARTED call is traced and replayed through the model, whose iteration
+    # 0 (evaluate everything, result_all = sum f r) is exactly the re-summation of the restart branch
+    plans = []
+    for i in range(ctx.n(3, 5)):
+        plans.append((merge_heavy(i), False, None))
+    for i in range(ctx.n(3, 10)):
+        cfg = merge_heavy(i + 1, niter=3) if i % 2 == 0 else rand_config(rng, dyadic=True, real_calc=False)
+        n1 = cfg["adpt_num_iter"]
+        k0 = rng.randint(0, max(0, n1 - 1))
+        plans.append((cfg, False, (n1, rng.choice([k0, k0 - n1 - 1]), rng.randint(1, 3))))
     for it in range(N):
         deep = (it % 9 == 8)
-        cfg = rand_config(rng, dyadic=(it % 3 != 2), deep=deep, real_calc=ctx.tier == "thorough")
-        store = rng.choice(["memory", "restart", "dump"])
+        plans.append((rand_config(rng, dyadic=(it % 3 != 2), deep=deep, real_calc=ctx.tier == "thorough"), deep, None))
+    for cfg, deep, restart in plans:
+        store = rng.choice(["memory", "restart", "dump"]) if restart is None else rng.choice(["restart", "dump"])
         key = cfg["calcs"][0] if cfg["dyadic"] else rng.choice(cfg["calcs"][:2])
-        case = dict(cfg, store=store, component=key)
+        case = dict(cfg, store=store, component=key, restart=restart)
         with ctx.attempt("traced run()", case):
             tr = Trace()
-            res, pre, kl = do_run(cfg, store, d, "c", trace=tr)
+            if restart is None:
+                res, pre, kl = do_run(cfg, store, d, "c", trace=tr)
+                first_saved = 0
+            else:
+                n1, rit, m = restart
+                do_run(cfg, store, d, "c", niter=n1)
+                res, pre, kl = do_run(cfg, store, d, "c", trace=tr, niter=m, extra=dict(restart=True, restart_iteration=rit))
+                first_saved = rit if rit >= 0 else n1 + rit + 1
             if tr.problems:
                 ctx.mismatch("event tracing lost track of K_list: " + tr.problems[0], case)
                 continue
@@ -285,7 +334,9 @@ def corr(ctx):
                 ctx.mismatch(bad, case)
             modes = {"memory": "memory", "restart": "memory", "dump": "dump"}
             lines.append(f"run new {modes[store]} {rats(rs)} {rats(fs)} {'|'.join(its) if its else '_'}")
-            saved = [float(np.ravel(rg.load_saved(pre, key, t))[0]) for t in range(len(tr.iters))]
+            # a restarted call does not save its pass i_iter = 0
+            saved = [None if (restart is not None and t == 0) else
+                     float(np.ravel(rg.load_saved(pre, key, first_saved + t))[0]) for t in range(len(tr.iters))]
             fmax = {}
             for t in tr.iters:
                 for kp, f in zip(K, t["factors"]):
@@ -293,12 +344,22 @@ def corr(ctx):
             hist = sum(fmax[i] * abs(val[i]) for i in fmax)
             filefac = rg.read_all_factors(kl) if store != "memory" else None
             checks.append(dict(case=case, iters=tr.iters, saved=saved, final=comp(res, key), filefac=filefac, hist=hist,
-                               nmerge=sum(1 for t in tr.iters for op in t["ops"] if op[0] == "m")))
-            ctx.case(signature=(str(sorted((k, str(v)) for k, v in cfg.items())), store, str([len(t["ops"]) for t in tr.iters])),
-                     nontrivial=changed_old)
+                               first=first_saved, nmerge=sum(1 for t in tr.iters for op in t["ops"] if op[0] == "m")))
+            ctx.case(signature=(str(sorted((k, str(v)) for k, v in cfg.items())), store, str(restart),
+                                str([len(t["ops"]) for t in tr.iters])), nontrivial=changed_old)
             ctx.count(f"corr.store={store}")
+            ctx.count("corr.restarted_call(replayed)" if restart is not None else "corr.plain_run")
             ctx.count("corr.deep[1,1,100]" if deep else ("corr.dyadic(exact)" if cfg["dyadic"] else "corr.non_dyadic(rounding)"))
             ctx.count(f"corr.system={cfg['system']}")
+            for j in range(1, len(tr.iters)):
+                prev, cur = tr.iters[j - 1], tr.iters[j]
+                nold = prev["n"]
+                into_old = sum(1 for op in cur["ops"] if op[0] == "m" and op[1] < nold)
+                gained = sum(1 for a_, b_ in zip(prev["factors"], cur["factors"]) if b_ > a_ and a_ != 0)
+                ctx.count("corr.events.new_point_absorbed_by_evaluated_point", into_old)
+                ctx.count("corr.events.evaluated_point_with_weight_gained_weight", gained)
+                if cur["n"] == nold and any(a_ != b_ for a_, b_ in zip(prev["factors"], cur["factors"])):
+                    ctx.count("corr.iterations_without_new_evaluation_but_weights_moved")
     out = ctx.lean(lines)
     for l, o, c in zip(lines, out, checks):
         case = c["case"]
@@ -320,11 +381,16 @@ def corr(ctx):
                 ctx.mismatch(f"iteration {t}: model's recorded factors differ from its current ones", dict(case, line=l[:300]))
                 break
             if c["filefac"] is not None:
-                ff = [F(x) for x in c["filefac"][t]]
+                if c["first"] + t not in c["filefac"]:
+                    ctx.fail(f"factors file of iteration {c['first'] + t} was not written", case)
+                    break
+                ff = [F(x) for x in c["filefac"][c["first"] + t]]
                 if ff != cf:
                     ctx.fail(f"factors_iter-{t} on disk differ from the factors of K_list after iteration {t}", case)
                     break
             mra = Fr(ra)
+            if c["saved"][t] is None:
+                continue
             tol = 0.0 if (exact and case["component"] == "hash") else 1e-13 * c["hist"]
             if abs(float(mra - F(c["saved"][t]))) > tol:
                 ctx.mismatch(f"iteration {t}: result_all of the model {float(mra)!r} differs from the result saved by "
@@ -390,6 +456,8 @@ def oracle(ctx, scale):
     for it in range(N):
         deep = (it % 7 == 3)
         cfg = rand_config(rng, deep=deep, real_calc=ctx.tier == "thorough")
+        if it < 2:
+            cfg = merge_heavy(it)
         if deep and ctx.tier == "quick":
             cfg["adpt_num_iter"] = 6
         keys = [k for k in cfg["calcs"]]
@@ -452,11 +520,97 @@ def oracle(ctx, scale):
                 b = np.array(res0.results[key].data, dtype=float)
                 if a.shape != b.shape or np.abs(a - b).max() > 1e-13 * hist[key]:
                     ctx.fail(f"discarded-results run gives a different '{key}' at iteration 0 ({np.abs(a - b).max():.3e})", case)
+            for t in range(1, niter + 1):
+                added, moved, gained, revived = weight_events(facs, t)
+                ctx.count("oracle.plain.evaluated_points_with_weight_gained_weight", gained)
+                if added == 0 and moved:
+                    ctx.count("oracle.plain.iterations_without_new_evaluation_but_weights_moved")
             minw = min((abs(x) for t in facs for x in facs[t] if x != 0), default=1.0)
             ctx.case(signature=str(sorted((k, str(v)) for k, v in cfg.items())), nontrivial=changed)
             ctx.count("oracle.deep[1,1,100]" if deep else "oracle.ordinary")
             ctx.count("oracle.min_weight<1e-8" if minw < 1e-8 else "oracle.min_weight>=1e-8")
             ctx.count(f"oracle.iterations={niter}")
+    rg.cleanup()
+    oracle_restarted(ctx, scale)
+
+
+def oracle_restarted(ctx, scale):
+    """the same property on RESTARTED runs (restart_iteration = -1 and earlier iterations, allow_restart and
+    dump_results): after every iteration a restarted call performs, saved == returned == sum_i f_i r_i recomputed
+    exactly from the restart files.  Restarting from an earlier refinement level re-creates children that are absorbed
+    by stale, already evaluated K-points: iterations in which NOTHING is evaluated although weights move."""
+    import glob as _glob
+    rng = ctx.rng
+    d = rg.scratch("c10rst")
+    nconf = ctx.n(5, 24) * scale
+    for it in range(nconf):
+        if it < ctx.n(3, 5):
+            cfg = merge_heavy(it, niter=rng.choice([2, 3]))
+        else:
+            cfg = rand_config(rng, real_calc=ctx.tier == "thorough" and it % 3 == 0)
+            cfg["adpt_num_iter"] = min(cfg["adpt_num_iter"], 4)
+        n1 = cfg["adpt_num_iter"]
+        keys = list(cfg["calcs"])
+        for store in ("restart", "dump"):
+            # a chain of calls in one directory: first run, restart from an earlier level, restart from the latest ...
+            k0 = rng.randint(0, n1 - 1)
+            chain = [(rng.choice([k0, k0 - n1 - 1]), k0, rng.randint(1, 3))]
+            top = max(n1, k0 + chain[0][2])
+            chain.append((-1, top, rng.randint(1, 2)))
+            if rng.random() < 0.5:
+                k1 = rng.randint(0, top)
+                chain.append((k1, k1, rng.randint(1, 2)))
+            case = dict(cfg, store=store, chain=[(r, m) for r, _, m in chain])
+            with ctx.attempt("restarted run() with adaptive refinement", case):
+                res, pre, kl = do_run(cfg, store, d, f"r{store}", niter=n1)
+                ok = True
+                for rit, start, m in chain:
+                    for f in _glob.glob(pre + "-*_iter-*.npz"):
+                        os.remove(f)
+                    res, pre, kl = do_run(cfg, store, d, f"r{store}", niter=m, extra=dict(restart=True, restart_iteration=rit))
+                    sub = dict(case, restart_iteration=rit, resumes_from=start, iterations=m)
+                    facs = rg.read_all_factors(kl)
+                    hist = history_magnitude(kl, keys)
+                    for t in range(start + 1, start + m + 1):
+                        if t not in facs or not os.path.exists(f"{pre}-{keys[0]}_iter-{t:04d}.npz"):
+                            ctx.fail(f"{store}: restarted call (restart_iteration={rit}) did not write the "
+                                     f"{'factors' if t not in facs else 'result'} of iteration {t}", sub)
+                            ok = False
+                            break
+                        ref, msg = weighted_sum_from_files(kl, keys, t)
+                        if msg:
+                            ctx.fail(f"{store}: {msg}", sub)
+                            ok = False
+                            break
+                        for key in keys:
+                            got = np.array(rg.load_saved(pre, key, t), dtype=float).ravel()
+                            tol = 1e-13 * hist[key]
+                            if got.shape != ref[key].shape or np.abs(got - ref[key]).max() > tol:
+                                ctx.fail(f"{store}: restarted call (restart_iteration={rit}): result '{key}' saved after "
+                                         f"iteration {t} differs from sum_i f_i r_i over the K-point list by "
+                                         f"{np.abs(got - ref[key]).max():.3e} (tolerance {tol:.1e})",
+                                         dict(sub, iteration=t, saved=got, weighted_sum=ref[key]))
+                                ok = False
+                                break
+                        if not ok:
+                            break
+                        added, moved, gained, revived = weight_events(facs, t)
+                        ctx.count("oracle.restarted.iterations_checked")
+                        if added == 0 and moved:
+                            ctx.count("oracle.restarted.iterations_without_new_evaluation_but_weights_moved")
+                        ctx.count("oracle.restarted.stale_points_revived", revived)
+                        ctx.count("oracle.restarted.evaluated_points_with_weight_gained_weight", gained)
+                    if not ok:
+                        break
+                    last = start + m
+                    for key in keys:
+                        lastsaved = np.array(rg.load_saved(pre, key, last), dtype=float).ravel()
+                        if np.abs(np.array(res.results[key].data, dtype=float).ravel() - lastsaved).max() > 0:
+                            ctx.fail(f"{store}: restarted call returned a '{key}' that differs from the one it saved after "
+                                     f"its last iteration {last}", sub)
+                            ok = False
+                    ctx.count("oracle.restarted.call.latest" if rit == -1 else "oracle.restarted.call.earlier_iteration")
+                ctx.case(signature=("rst", str(sorted((k, str(v)) for k, v in case.items()))), nontrivial=True)
     rg.cleanup()
 
 
